@@ -1,7 +1,7 @@
 /-
   M12: block assembly (qbee/parser.py parse_string with Block.create and the create_block rules of IfBlock, SelectBlock
   and TypeBlock in qbee/stmt.py), AS REPAIRED (ELSE / ELSEIF / CASE outside their block and ELSE after ELSE are syntax
-  errors).  A program is the sequence of its statements, each reduced to what block matching looks at.
+  errors; a field declaration outside a TYPE block is a syntax error).  A program is the sequence of its statements, each reduced to what block matching looks at.
   Block kinds: 0 IF, 1 SUB, 2 FUNCTION, 3 TYPE, 4 DO, 5 FOR, 6 SELECT, 7 WHILE.
 -/
 namespace Qbee.Blocks
@@ -34,6 +34,7 @@ inductive Err where
   | elseAfterElse (loc : Nat)
   | beforeCase (loc : Nat)                    -- "Statements illegal between SELECT CASE and CASE"
   | illegalInType (loc : Nat)
+  | fieldOutside (loc : Nat)                  -- "Field declaration outside TYPE block"
   deriving Repr, DecidableEq
 
 def owner (sub : Nat) : Nat := if sub ≤ 1 then 0 else 6
@@ -78,7 +79,11 @@ def run : List Tok → List Frame → List Item → Except Err Unit
     match st with
     | f :: _ => if f.kind = owner sub then run r st (cur ++ [.mid sub loc]) else .error (.midWithout sub loc)
     | [] => .error (.midWithout sub loc)
-  | .field loc :: r, st, cur => run r st (cur ++ [.field loc])
+  | .field loc :: r, st, cur =>
+    -- a field declaration is a statement of TYPE blocks only (as repaired: it reached the code generator)
+    match st with
+    | f :: _ => if f.kind = 3 then run r st (cur ++ [.field loc]) else .error (.fieldOutside loc)
+    | [] => .error (.fieldOutside loc)
   | .plain loc :: r, st, cur => run r st (cur ++ [.other loc])
 
 def assemble (toks : List Tok) : Except Err Unit := run toks [] []
@@ -87,7 +92,7 @@ def Tok.loc : Tok → Nat
   | .start _ l | .stop _ l | .mid _ l | .field l | .plain l => l
 
 def Err.loc : Err → Nat
-  | .endWithoutStart _ l | .expected _ l | .midWithout _ l | .notClosed _ l | .elseAfterElse l | .beforeCase l | .illegalInType l => l
+  | .endWithoutStart _ l | .expected _ l | .midWithout _ l | .notClosed _ l | .elseAfterElse l | .beforeCase l | .illegalInType l | .fieldOutside l => l
 
 def countStart (k : Nat) : List Tok → Nat
   | [] => 0
